@@ -148,6 +148,9 @@ func extSprintf(fr *frame, a []value) value {
 	if strings.Contains(format, "%016x") && hasSymbolic(args) {
 		return i.sprintfHex16(fr, format, args)
 	}
+	if hasSymbolicString(args) {
+		return i.sprintfSymStrings(fr, format, args)
+	}
 	return i.sprintf(fr, format, args)
 }
 
@@ -390,3 +393,54 @@ func extErrorsJoin(fr *frame, a []value) value {
 }
 
 var _ = ssa.NewProgram
+
+
+func hasSymbolicString(args []value) bool {
+	for _, a := range args {
+		if f, ok := a.(iface); ok {
+			if _, ok := f.v.(sstr); ok {
+				return true
+			}
+		}
+	}
+	return false
+}
+
+// sprintfSymStrings renders formats made of literal text and plain %s / %v / %d verbs exactly, keeping symbolic
+// string operands symbolic (byte for byte). Anything else with a symbolic string operand is unsupported.
+func (i *interpreter) sprintfSymStrings(fr *frame, format string, args []value) value {
+	var out []value
+	ai := 0
+	for k := 0; k < len(format); k++ {
+		if format[k] != '%' {
+			out = append(out, i.mkByte(format[k]))
+			continue
+		}
+		k++
+		if k >= len(format) {
+			i.unsupported("format %q: trailing %%", format)
+		}
+		switch format[k] {
+		case '%':
+			out = append(out, i.mkByte('%'))
+		case 's', 'v', 'd':
+			if ai >= len(args) {
+				i.unsupported("format %q: missing operand", format)
+			}
+			a := args[ai].(iface)
+			ai++
+			switch v := a.v.(type) {
+			case string, sstr:
+				out = append(out, i.strBytes(v)...)
+			default:
+				out = append(out, i.strBytes(fmt.Sprint(i.toNative(fr, a, 0)))...)
+				if x, ok := a.v.(ival); ok && !x.t.IsConst() {
+					i.unsupported("format %q: symbolic integer operand next to a symbolic string", format)
+				}
+			}
+		default:
+			i.unsupported("format %q with a symbolic string operand: only %%s %%v %%d are rendered exactly", format)
+		}
+	}
+	return mkStr(out)
+}
